@@ -265,6 +265,38 @@ def run_key_dependence(R, name):
     R.sample({"config": name, "distinct_instances_over_32_keys": len(seen)})
 
 
+def run_sudoku_dtypes(R):
+    """(also a C01 job: the reset observation of such a generator must lie inside the declared board bounds)"""
+    import os
+    from jumanji.environments.logic.sudoku import data as sd
+    path = os.path.join(os.path.dirname(sd.__file__))
+    # DatabaseGenerator accepts any integer array in the documented database format (0 = empty, 1..9): the generated board must be the
+    # same int32 board with -1 = empty whatever the integer dtype / array library of the caller's database (an unsigned database wraps
+    # 0 - 1 to 255 when the shift is done in the database's own dtype)
+    try:
+        from jumanji.environments.logic.sudoku.generator import DatabaseGenerator
+        fp = os.path.join(path, sd.DATABASES["toy"]) if "toy" in sd.DATABASES else os.path.join(path, list(sd.DATABASES.values())[0])
+        db0 = np.asarray(np.load(fp))[:4]
+        want = db0.astype(np.int32) - 1
+        badd = []
+        for label, arr in (("int8", db0.astype(np.int8)), ("uint8", db0.astype(np.uint8)), ("int32", db0.astype(np.int32)), ("int16", db0.astype(np.int16)),
+                           ("jnp.uint8", jnp.asarray(db0.astype(np.uint8))), ("jnp.int32", jnp.asarray(db0.astype(np.int32)))):
+            src = np.array(arr, copy=True)
+            gen = DatabaseGenerator(arr)
+            for k in range(6):
+                st_ = gen(jax.random.PRNGKey(k))
+                b_ = np.asarray(st_.board)
+                if b_.dtype != np.int32 or b_.min() < -1 or b_.max() > 8 or not any(np.array_equal(b_, w) for w in want):
+                    badd.append({"database_dtype": label, "key": k, "board_min": int(b_.min()), "board_max": int(b_.max()), "board_dtype": str(b_.dtype)})
+                    break
+            if not np.array_equal(np.asarray(arr), src):
+                badd.append({"database_dtype": label, "note": "the caller's database was modified"})
+        R.validated += 36
+        R.structural("Sudoku DatabaseGenerator: boards are int32 in [-1, 8] and equal (database board - 1) for int8/uint8/int16/int32 numpy and jax databases", not badd, {"bad": badd[:4]})
+    except Exception as e:  # noqa
+        R.structural("Sudoku DatabaseGenerator accepts integer databases of any integer dtype", False, {"error": repr(e)[:300]})
+
+
 def run_concrete(R):
     """finite data shipped with the repo: Sudoku databases conflict-free; BinPack Toy/CSV instances and generate_solution feasible"""
     import os
@@ -287,6 +319,7 @@ def run_concrete(R):
                         bad.append((name, idx))
     R.validated += n_boards
     R.structural(f"all {n_boards} shipped Sudoku database boards are conflict-free (rows, columns, boxes)", not bad, {"conflicts": bad[:5]})
+    run_sudoku_dtypes(R)
     from jumanji.environments.packing.bin_pack.generator import ToyGenerator
     for label, gen in (("Toy", ToyGenerator()), ("CSV", configs.make("BinPack@csv").generator)):
         key = jax.random.PRNGKey(0)
